@@ -294,6 +294,33 @@ pub fn c09(g: &mut Gen) {
                 Tol::Loose, &format!("dense-x{}/learn-early-stop", depth), true);
         }
     }
+    // every top-level layer kind with dropout (dense, convolution, deconvolution), alone and after one another:
+    // validate while the flags are on, learn with validation, learn without
+    for kind in 0..4usize {
+        let c = ArchCfg { dropout: false, ..cfg.clone() };
+        let conv = |g: &mut Gen| InnerSpec::Conv { filters: 2, act: "tanh".into(), k: (2, 2), s: (1, 1), p: (0, 0), d: (1, 1), dropout: Some(0.5),
+            ks: (0..2).map(|_| weights(g, &Shape::Triple(1, 2, 2), 0.5)).collect() };
+        let deconv = |g: &mut Gen, ch: usize| InnerSpec::Deconv { filters: 1, act: "sigmoid".into(), k: (2, 2), s: (1, 1), p: (0, 0), dropout: Some(0.5),
+            ks: vec![weights(g, &Shape::Triple(ch, 2, 2), 0.5)] };
+        let (builds, count): (Vec<Build>, usize) = match kind {
+            0 => (vec![Build::Layer(conv(g))], 2 * 2 * 2),
+            1 => (vec![Build::Layer(deconv(g, 1))], 4 * 4),
+            2 => (vec![Build::Layer(conv(g)), Build::Layer(deconv(g, 2))], 3 * 3),
+            _ => (vec![Build::Layer(deconv(g, 1)), Build::Layer(InnerSpec::Conv { filters: 1, act: "tanh".into(), k: (2, 2), s: (1, 1), p: (0, 0), d: (1, 1), dropout: Some(0.5),
+                ks: vec![weights(g, &Shape::Triple(1, 2, 2), 0.5)] })], 3 * 3),
+        };
+        let mut builds = builds;
+        let mut last = dense_spec(g, &c, count, 2, "tanh", true);
+        if let InnerSpec::Dense { dropout, .. } = &mut last { *dropout = Some(0.5); }
+        builds.push(Build::Layer(last));
+        let net = NetSpec { input: Shape::Triple(1, 3, 3), builds, skipacc: "add".into(), loopacc: "mean".into(), opt: Some(OptSpec::Sgd(0.05, None)), obj: "mse".into(), clamp: None };
+        let s = samples_tok(g, &net, &Sh::Flat(2), 3);
+        let v = samples_tok(g, &net, &Sh::Flat(2), 2);
+        g.push(format!("net {} validate 3 {} {} 1", net.token(), s, hx(0.1)), Tol::Tight, &format!("spatial-kind{}/validate-while-training", kind), true);
+        g.push(format!("net {} validate 3 {} {} 0", net.token(), s, hx(0.1)), Tol::Tight, &format!("spatial-kind{}/validate", kind), true);
+        g.push(format!("net {} learn 3 {} 1 2 {} 5 2 2 0", net.token(), s, v), Tol::Loose, &format!("spatial-kind{}/learn-with-validation", kind), true);
+        g.push(format!("net {} learn 3 {} 0 2 2 0", net.token(), s), Tol::Loose, &format!("spatial-kind{}/learn", kind), true);
+    }
     // feedback blocks whose inner layers carry dropout: one block per inner layer kind (dense, convolution,
     // deconvolution), two loops, a dense layer behind it; the block's own flag propagation must set and clear
     // every inner flag
@@ -789,6 +816,19 @@ pub fn c01(g: &mut Gen) {
             let x = input_for(g, &net.input);
             let t = target_for(g, &out, "mse");
             g.push(format!("net {} backward {} {}", net.token(), qt(&x), qt(&t)), Tol::Tight, &format!("feedback/L{}/{}", loops, if spatial { "spatial" } else { "flat" }), true);
+        }
+    }
+    // overlapping pooling windows (stride < kernel): a cell that is the arg-max of several windows collects all their gradients
+    for (k, st) in [((2usize, 2usize), (1usize, 1usize)), ((3, 2), (1, 1)), ((2, 3), (1, 2))] {
+        let conv = InnerSpec::Conv { filters: 1, act: "tanh".into(), k: (3, 3), s: (1, 1), p: (1, 1), d: (1, 1), dropout: None, ks: vec![weights(g, &Shape::Triple(1, 3, 3), 0.5)] };
+        let (h, w) = (4usize, 5usize);
+        let (oh, ow) = ((h - k.0) / st.0 + 1, (w - k.1) / st.1 + 1);
+        let net = NetSpec { input: Shape::Triple(1, h, w), builds: vec![Build::Layer(conv), Build::Layer(InnerSpec::Maxpool { k, s: st }),
+            Build::Layer(dense_spec(g, &cfg, oh * ow, 2, "tanh", true))], skipacc: "add".into(), loopacc: "mean".into(), opt: None, obj: "mse".into(), clamp: None };
+        for _ in 0..2 {
+            let x = input_for(g, &net.input);
+            let t = target_for(g, &Sh::Flat(2), "mse");
+            g.push(format!("net {} backward {} {}", net.token(), qt(&x), qt(&t)), Tol::Tight, "maxpool/overlapping-windows", true);
         }
     }
     // every layer kind next to every other, with feedback blocks (no internal skips) in the chain
